@@ -56,6 +56,8 @@ f_loops = z3.Function("st_loops", S8, LL)
 BND = z3.Function("BND", LL, NameSet)        # variables of all loop bounds
 IDENTS = z3.Function("IDENTS", LL, NameSet)  # loop identifiers
 
+SCOPE = z3.Function("SCOPE", LL, NameSet, NameSet)   # bound variables read from the enclosing scope, given the counters already bound
+
 EXPR = TElem("Expr", Expr)
 
 
@@ -87,6 +89,21 @@ def unfold_ll(l):
             Implies(LL.is_LCons(l),
                     And(BND(l) == union(vars_(LL.l_start(l)), vars_(LL.l_stop(l)), BND(LL.l_tail(l))),
                         IDENTS(l) == union(single(LL.l_ident(l)), IDENTS(LL.l_tail(l)))))]
+
+
+def minus(a, b):
+    x, y = z3.Bools("x y")
+    andf = z3.And(x, y).decl()
+    notf = z3.Not(x).decl()
+    return z3.Map(andf, a, z3.Map(notf, b))
+
+
+def unfold_scope(l, B):
+    """defining equations of SCOPE at (l, B): a loop's bounds are evaluated before its counter is bound"""
+    return [Implies(LL.is_LNil(l), SCOPE(l, B) == empty()),
+            Implies(LL.is_LCons(l),
+                    SCOPE(l, B) == union(minus(union(vars_(LL.l_start(l)), vars_(LL.l_stop(l))), B),
+                                         SCOPE(LL.l_tail(l), union(B, single(LL.l_ident(l))))))]
 
 
 class VLL(V):
@@ -125,15 +142,34 @@ class VLL(V):
     def fresh_like(self, ctx, base):
         return VLL(z3.Const(fresh_name(base), LL))
 
+    def comprehension(self, it, e, kind):
+        """{ident for ident, _, _ in loops}: the set of loop identifiers (other element expressions: unsupported)"""
+        import ast as pyast
+        gen = e.generators[0]
+        if gen.ifs or not isinstance(gen.target, pyast.Tuple) or len(gen.target.elts) != 3:
+            raise Unsupported("comprehension over loops")
+        elt = e.elt if kind != "dict" else None
+        if isinstance(elt, pyast.Name) and isinstance(gen.target.elts[0], pyast.Name) and elt.id == gen.target.elts[0].id:
+            for f in unfold_ll(self.t):
+                it.ctx.assume(f)
+            return VSet(NAMESET, IDENTS(self.t))
+        raise Unsupported("comprehension over loops with element %s" % pyast.unparse(e))
+
     def for_loop(self, it, s, k, spec, ex):
         ctx = it.ctx
         ex["$whole"] = self
         ex["$rest"] = VLL(self.t)
 
+        whole = self.t
+
         def guard_fn():
-            for f in unfold_ll(ex["$rest"].t):
+            rest = ex["$rest"].t
+            for f in unfold_ll(rest):
                 ctx.assume(f)
-            return LL.is_LCons(ex["$rest"].t)
+            # engine fact: $rest is a suffix of the iterated list (it only ever advances by l_tail)
+            ctx.assume(subset(IDENTS(rest), IDENTS(whole)))
+            ctx.assume(subset(BND(rest), BND(whole)))
+            return LL.is_LCons(rest)
 
         def prologue():
             r = ex["$rest"].t
@@ -216,7 +252,8 @@ def RD_Cond(s):
 
 
 def RD_Assign(s):
-    return union(RD_AssignBase(s), RD_Cond(s), BND(f_loops(s)))
+    """rhs, lhs subscripts, guard, and every loop-bound variable that is read from the enclosing scope"""
+    return union(RD_AssignBase(s), RD_Cond(s), SCOPE(f_loops(s), empty()))
 
 
 def m_dep_mapper(ctx, it, args, kw):
@@ -340,7 +377,15 @@ class VContext(V):
         ctx = it.ctx
         name = ctx.deref(idx)
         ctx.ghost["touched_r"] = Store(ctx.ghost["touched_r"], name.t, True)
+        ctx.ghost["scope_r"] = union(ctx.ghost["scope_r"], minus(single(name.t), ctx.ghost["bound"]))
         return VArr(name.t)
+
+    def contains(self, it, x):
+        # `name in context` is a read of that key
+        ctx = it.ctx
+        ctx.ghost["touched_r"] = Store(ctx.ghost["touched_r"], x.t, True)
+        ctx.ghost["scope_r"] = union(ctx.ghost["scope_r"], minus(single(x.t), ctx.ghost["bound"]))
+        return z3.Bool(fresh_name("key_present"))
 
     def setitem(self, it, idx, v, node):
         ctx = it.ctx
@@ -402,6 +447,8 @@ class ExecContract(FunctionContract):
     def ghosts(self, ctx):
         ctx.ghost["touched_r"] = empty()
         ctx.ghost["touched_w"] = empty()
+        ctx.ghost["scope_r"] = empty()        # reads that reach the enclosing scope (name not bound as a counter then)
+        ctx.ghost["bound"] = empty()          # loop counters bound at this point of the execution
 
     def requires(self, st):
         return validity(self.s)
@@ -414,6 +461,7 @@ class ExecContract(FunctionContract):
         r = z3.Const(fresh_name("looked_up"), NameSet)
         ctx.assume(subset(r, vs))
         ctx.ghost["touched_r"] = union(ctx.ghost["touched_r"], r)
+        ctx.ghost["scope_r"] = union(ctx.ghost["scope_r"], minus(r, ctx.ghost["bound"]))
         if ctx.choose(2, "eval-raises") == 0:
             ctx.raise_("EvalError")
         return VInt(z3.Int(fresh_name("value"))) if getattr(self, "eval_returns_int", False) else VPy("<value>")
@@ -435,6 +483,8 @@ class ExecContract(FunctionContract):
         loops = IDENTS(f_loops(self.s))
         return [("every-variable-read-is-declared-read-or-written-or-a-loop-counter",
                  subset(st.g("touched_r"), union(R, W, loops))),
+                ("every-variable-read-from-the-enclosing-scope-is-declared-read-or-written",
+                 subset(st.g("scope_r"), union(R, W))),
                 ("every-variable-assigned-is-declared-written-or-a-loop-counter",
                  subset(st.g("touched_w"), union(W, loops)))]
 
@@ -479,6 +529,13 @@ class ImplementLoops(ExecContract):
     def __init__(self):
         super().__init__("NumpyInterpreter.exec_Assign.implement_loops")
         self.loops_t = z3.Const("loops", LL)
+        self.B0 = z3.Const("counters_bound_by_outer_loops", NameSet)
+
+    def ghosts(self, ctx):
+        super().ghosts(ctx)
+        ctx.ghost["bound"] = self.B0
+        for f in unfold_scope(self.loops_t, self.B0):
+            ctx.assume(f)
 
     def params(self, ctx):
         super().params(ctx)
@@ -487,37 +544,47 @@ class ImplementLoops(ExecContract):
             ctx.assume(f)
         ctx.env["implement_loops"] = VFunc("implement_loops", self.m_rec)
 
-    def within(self, st_ghost_r, st_ghost_w, l):
-        return [("reads-only-bounds-of-its-loops", subset(st_ghost_r, BND(l))),
-                ("writes-only-identifiers-of-its-loops", subset(st_ghost_w, IDENTS(l)))]
+    def within(self, st_ghost_r, st_ghost_w, l, scope=None):
+        out = [("reads-only-bounds-of-its-loops", subset(st_ghost_r, BND(l))),
+               ("writes-only-identifiers-of-its-loops", subset(st_ghost_w, IDENTS(l)))]
+        if scope is not None:
+            out.append(("reaches-the-enclosing-scope-only-for-bounds-evaluated-before-their-counter-is-bound",
+                        subset(scope, SCOPE(l, self.B0))))
+        return out
 
     def m_rec(self, ctx, it, args, kw):
         l = ctx.deref(args[0])
         return VGen(l.t)
 
     def on_yield(self, ctx, it, v):
-        for n, f in self.within(ctx.ghost["touched_r"], ctx.ghost["touched_w"], self.loops_t):
+        for n, f in self.within(ctx.ghost["touched_r"], ctx.ghost["touched_w"], self.loops_t, ctx.ghost["scope_r"]):
             ctx.oblige(it.oname("at-yield/" + n), f)
 
     def inv_range(self, s):
-        return [n_f for n_f in self.within(s.g("touched_r"), s.g("touched_w"), self.loops_t)]
+        return [n_f for n_f in self.within(s.g("touched_r"), s.g("touched_w"), self.loops_t, s.g("scope_r"))]
 
     def inv_inner(self, s):
-        return [n_f for n_f in self.within(s.g("touched_r"), s.g("touched_w"), self.loops_t)]
+        return [n_f for n_f in self.within(s.g("touched_r"), s.g("touched_w"), self.loops_t, s.g("scope_r"))]
+
+    @property
+    def ghost_updates(self):
+        def bind(ctx, it):
+            ctx.ghost["bound"] = union(self.B0, single(ctx.deref(ctx.env["ident"]).t))
+        return {"self.context[ident] = i": bind}
 
     loops = property(lambda self: {
         0: dict(shape="for i in range(self.eval_mapper(start), self.eval_mapper(stop))", inv=self.inv_range,
-                havoc_ghosts=["touched_r", "touched_w"]),
+                havoc_ghosts=["touched_r", "touched_w", "scope_r"]),
         1: dict(shape="for _val in implement_loops(loops[1:])", inv=self.inv_inner,
-                havoc_ghosts=["touched_r", "touched_w"]),
+                havoc_ghosts=["touched_r", "touched_w", "scope_r"]),
     })
 
     def ensures(self, st):
-        return self.within(st.g("touched_r"), st.g("touched_w"), self.loops_t)
+        return self.within(st.g("touched_r"), st.g("touched_w"), self.loops_t, st.g("scope_r"))
 
     @property
     def raises(self):
-        return {"EvalError": lambda st: self.within(st.g("touched_r"), st.g("touched_w"), self.loops_t)}
+        return {"EvalError": lambda st: self.within(st.g("touched_r"), st.g("touched_w"), self.loops_t, st.g("scope_r"))}
 
 
 class VGen(V):
@@ -532,13 +599,18 @@ class VGen(V):
         ctx = it.ctx
         l = self.l
 
+        bound_at_creation = ctx.ghost["bound"]
+
         def resume():
             r = z3.Const(fresh_name("gen_r"), NameSet)
             w = z3.Const(fresh_name("gen_w"), NameSet)
+            sc = z3.Const(fresh_name("gen_scope"), NameSet)
             ctx.assume(subset(r, BND(l)))
             ctx.assume(subset(w, IDENTS(l)))
+            ctx.assume(subset(sc, SCOPE(l, bound_at_creation)))
             ctx.ghost["touched_r"] = union(ctx.ghost["touched_r"], r)
             ctx.ghost["touched_w"] = union(ctx.ghost["touched_w"], w)
+            ctx.ghost["scope_r"] = union(ctx.ghost["scope_r"], sc)
             if ctx.choose(2, "generator-raises") == 0:
                 ctx.raise_("EvalError")
 
@@ -547,7 +619,15 @@ class VGen(V):
             resume()
             return z3.Bool(fresh_name("gen_has_next"))
 
-        it.run_cut_loop(s, k, spec, guard_fn, lambda: it.assign(s.target, NONE), lambda: None, lambda: None)
+        def prologue():
+            # at a yield every counter of l is bound
+            ctx.ghost["bound"] = union(bound_at_creation, IDENTS(l))
+            it.assign(s.target, NONE)
+
+        def epilogue():
+            ctx.ghost["bound"] = bound_at_creation
+
+        it.run_cut_loop(s, k, spec, guard_fn, prologue, epilogue, lambda: None)
 
 
 class ExecAssign(ExecContract):
@@ -555,6 +635,12 @@ class ExecAssign(ExecContract):
         super().__init__("NumpyInterpreter.exec_Assign")
         self.declared_reads = RD_Assign
         self.declared_writes = lambda s: single(written_name(s))
+
+    def params(self, ctx):
+        super().params(ctx)
+        l = f_loops(self.s)
+        # lemma scope-within-bounds (both parts), instantiated at the statement's loops and no outer counters
+        ctx.assume(subset(BND(l), union(SCOPE(l, empty()), IDENTS(l))))
 
     def m_impl(self, ctx, it, args, kw):
         l = ctx.deref(args[0])
@@ -567,8 +653,8 @@ class ExecAssign(ExecContract):
 
     loops = property(lambda self: {
         0: dict(shape="for _val in implement_loops(stmt.loops)", inv=self.inv,
-                havoc_ghosts=["touched_r", "touched_w"]),
-        1: dict(shape="for (ident, _, _) in stmt.loops", havoc_ghosts=["touched_r", "touched_w"],
+                havoc_ghosts=["touched_r", "touched_w", "scope_r"]),
+        1: dict(shape="for (ident, _, _) in stmt.loops", havoc_ghosts=["touched_r", "touched_w", "scope_r"],
                 inv=lambda s: self.frame(s) + [
                     ("remaining-loops-are-loops-of-the-statement",
                      subset(IDENTS(s.loop(1)["$rest"].t), IDENTS(f_loops(self.s))))]),
@@ -675,8 +761,12 @@ class ExecCall(ExecContract):
                                            inv=self.frame, havoc_ghosts=["touched_w"])})
 
 
+
 class VResults(V):
     ty = None
+
+
+fn_known = z3.Function("function_is_registered", VarName, BoolSort())
 
 
 class VFuncTable(V):
@@ -685,8 +775,12 @@ class VFuncTable(V):
     def __init__(self, fn):
         self.fn = fn
 
+    def contains(self, it, x):
+        return fn_known(x.t)
+
     def getitem(self, it, idx, node):
-        if it.ctx.choose(2, "function-missing") == 0:
+        name = it.ctx.deref(idx)
+        if not it.ctx.branch(fn_known(name.t), "function-registered"):
             it.ctx.raise_("KeyError")
         return VFunc("user_function", self.fn)
 
@@ -739,6 +833,11 @@ class AssignReads(DeclContract):
     def __init__(self):
         super().__init__("Assign.get_read_variables", RD_Assign,
                          super_lb=lambda s: union(RD_Cond(s), RD_AssignBase(s)))
+
+    def params(self, ctx):
+        super().params(ctx)
+        # lemma scope-within-bounds (unit below): SCOPE(l, B) is a subset of BND(l)
+        ctx.assume(subset(SCOPE(f_loops(self.s), empty()), BND(f_loops(self.s))))
 
     def inv(self, s):
         rest = s.loop(0)["$rest"].t
@@ -836,6 +935,137 @@ class PropContract(FunctionContract):
         return self.post(self.s, st.result)
 
 
+FLAT = z3.Function("flatten", Expr, Expr)     # pymbolic.flatten: may drop variables (0*x -> 0): no axiom about vars
+
+
+class GetVariables(FunctionContract):
+    """dagrt.utils.get_variables(expr): exactly the variables of expr (relative to A-DEP for the pymbolic mapper
+    it instantiates); in particular the expression must reach the mapper unchanged"""
+    prop = PROP
+    relpath = "dagrt/utils.py"
+    qualname = "get_variables"
+
+    def __init__(self):
+        self.e = z3.Const("expr", Expr)
+
+    def params(self, ctx):
+        ctx.env["expr"] = EXPR.wrap(self.e)
+        ctx.env["include_function_symbols"] = VBool(False)
+
+    def dict_literal(self, ctx, it, e):
+        for v in e.values:
+            it.eval(v)
+        return VPy("<mapper arguments>")
+
+    calls = {"ExtendedDependencyMapper": lambda ctx, it, a, k: VFunc("dep_mapper", m_dep_mapper)}
+    names = {"frozenset": VFunc("frozenset", m_frozenset),
+             "flatten": VFunc("flatten", lambda ctx, it, a, k: EXPR.wrap(FLAT(ctx.deref(a[0]).t)))}
+
+    def ensures(self, st):
+        return [("every-variable-of-the-expression-is-reported", subset(vars_(self.e), st.result.t)),
+                ("nothing-else-is-reported", subset(st.result.t, vars_(self.e)))]
+
+
+class EvalMapVariable(ExecContract):
+    """EvaluationMapper.map_variable(expr): looks up (only) expr.name in the context"""
+    relpath = "dagrt/expression.py"
+
+    def __init__(self):
+        ExecContract.__init__(self, "EvaluationMapper.map_variable")
+        self.v = z3.Const("variable_name", VarName)
+        self.declared_reads = lambda s: single(self.v)
+        self.declared_writes = lambda s: empty()
+
+    def params(self, ctx):
+        ctx.env["self"] = VObj(TObj("EvaluationMapper", {}), {"context": VContext(), "functions": VFuncTable(None)})
+        ctx.env["expr"] = VObj(TObj("Variable", {}), {"name": VARNAME.wrap(self.v)})
+
+    raises = {}
+
+
+class EvalGenericCall(ExecContract):
+    """EvaluationMapper.map_generic_call: the function is looked up in `functions` (never in the context);
+    the context is read only through the evaluation of the arguments"""
+    relpath = "dagrt/expression.py"
+
+    def __init__(self):
+        ExecContract.__init__(self, "EvaluationMapper.map_generic_call")
+        self.fn = z3.Const("function_name", VarName)
+        self.args_vars = z3.Const("variables_of_all_arguments", NameSet)
+        self.declared_reads = lambda s: self.args_vars
+        self.declared_writes = lambda s: empty()
+
+    def params(self, ctx):
+        ctx.env["self"] = VObj(TObj("EvaluationMapper", {}), {"context": VContext(), "functions": VFuncTable(self.m_user)})
+        ctx.env["function_name"] = VARNAME.wrap(self.fn)
+        ctx.env["parameters"] = VPy("<parameters>")
+        ctx.env["kw_parameters"] = VPy("<kw_parameters>")
+
+    def m_user(self, ctx, it, args, kw):
+        if ctx.choose(2, "user-function-raises") == 0:
+            ctx.raise_("UserFunctionError")
+        return VPy("<result>")
+
+    def m_args(self, ctx, it, e):
+        # self.rec(param) for every argument: A-EVAL on each
+        r = z3.Const(fresh_name("looked_up"), NameSet)
+        ctx.assume(subset(r, self.args_vars))
+        ctx.ghost["touched_r"] = union(ctx.ghost["touched_r"], r)
+        ctx.ghost["scope_r"] = union(ctx.ghost["scope_r"], r)
+        if ctx.choose(2, "eval-raises") == 0:
+            ctx.raise_("EvalError")
+        return VPy("<evaluated arguments>")
+
+    comprehensions = property(lambda self: {
+        "(self.rec(param) for param in parameters)": self.m_args,
+        "{param_id: self.rec(param) for param_id, param in kw_parameters.items()}": self.m_args})
+
+    def m_map_variable(self, ctx, it, args, kw):
+        """self.map_variable(Variable(n)) by its contract above: reads n in the context"""
+        v = ctx.deref(args[0])
+        n = v.fields["name"].t
+        ctx.ghost["touched_r"] = Store(ctx.ghost["touched_r"], n, True)
+        ctx.ghost["scope_r"] = Store(ctx.ghost["scope_r"], n, True)
+        return VFunc("maybe_function", self.m_user)
+
+    calls = property(lambda self: {"self.map_variable": self.m_map_variable})
+    names = property(lambda self: {
+        "tuple": VFunc("tuple", lambda ctx, it, a, k: a[0]),
+        "str": VFunc("str", lambda ctx, it, a, k: VPy("<str>")),
+        "Variable": VFunc("Variable", lambda ctx, it, a, k: VObj(TObj("Variable", {}), {"name": a[0]}))})
+
+    def binop_hook(self, ctx, it, op, a, b):
+        import ast as pyast
+        if op is pyast.Add and isinstance(a, VPy) and isinstance(b, VPy):
+            return VPy("<message>")
+        return None
+
+    @property
+    def raises(self):
+        return {"EvalError": self.frame, "UserFunctionError": self.frame, "ValueError": self.frame,
+                "KeyError": self.frame}
+
+
+def scope_lemma():
+    """SCOPE(l, B) is a subset of BND(l): induction on l (step proved here for all B)"""
+    i = z3.Const("i", VarName)
+    a, b = z3.Consts("a b", Expr)
+    t = z3.Const("t", LL)
+    B = z3.Const("B", NameSet)
+    B2 = z3.Const("B2", NameSet)
+    l = LL.LCons(i, a, b, t)
+    return [], [("scope-within-bounds/base", unfold_scope(LL.LNil, B) + unfold_ll(LL.LNil), subset(SCOPE(LL.LNil, B), BND(LL.LNil))),
+                ("scope-within-bounds/step",
+                 unfold_scope(l, B) + unfold_ll(l) + [ForAll([B2], subset(SCOPE(t, B2), BND(t)))],
+                 subset(SCOPE(l, B), BND(l))),
+                # every bound variable is read from the scope or is a counter (already bound, or of these loops)
+                ("bounds-are-scope-reads-or-counters/base", unfold_scope(LL.LNil, B) + unfold_ll(LL.LNil),
+                 subset(BND(LL.LNil), union(SCOPE(LL.LNil, B), B, IDENTS(LL.LNil)))),
+                ("bounds-are-scope-reads-or-counters/step",
+                 unfold_scope(l, B) + unfold_ll(l) + [ForAll([B2], subset(BND(t), union(SCOPE(t, B2), B2, IDENTS(t))))],
+                 subset(BND(l), union(SCOPE(l, B), B, IDENTS(l))))]
+
+
 def units():
     us = [
         FunctionUnit(DeclContract("StatementBase.get_read_variables", lambda s: empty())),
@@ -865,6 +1095,8 @@ def units():
         FunctionUnit(ExecAssign()),
         FunctionUnit(ExecCall()),
         LemmaUnit("lemma:class-chains", mro_lemma),
+        LemmaUnit("lemma:scope-within-bounds", scope_lemma),
+        FunctionUnit(GetVariables()), FunctionUnit(EvalMapVariable()), FunctionUnit(EvalGenericCall()),
     ]
     # which get_read_variables does an Assign resolve to?  (read from the source's class hierarchy)
     cls = extract.resolve_method(LANG, "Assign", "get_read_variables")
